@@ -86,6 +86,12 @@ func (n *RetryHTTPSGetter) Get(url string) (map[string][]string, []byte, error) 
 		if delay > n.MaxRetryDelay {
 			delay = n.MaxRetryDelay
 		}
+		// When the timeout has already passed do not retry: with a zero delay both cases of the
+		// select below are ready and one of them is picked at random.
+		if ctx.Err() != nil {
+			cancel()
+			return nil, nil, fmt.Errorf("timeout") // context cancelled
+		}
 		select {
 		case <-ctx.Done():
 			cancel()
